@@ -1,14 +1,20 @@
 import PeliteModel.Thm.C16
 import PeliteModel.Thm.C14
 import PeliteModel.Thm.C20
+import PeliteModel.Lemmas.IterSeq
+import PeliteModel.Lemmas.RelocsFold
 /-!
 C18 — iterators behave as faithful sequences under any interleaving of calls.
 
 Hand-written iterators with content of their own:
 * `RichIter` (next / next_back / nth / len / size_hint / count / clone): full refinement to the deque
   specification for every history, `C16_iter_is_deque` (restated here);
-* `IterBlocks` (relocation blocks, forward only, fused): below;
-* `strings::Enumerator` (forward only, idempotent at the end): below;
+* `IterBlocks` (relocation blocks; `Iterator + Clone + FusedIterator`, only `next` hand-written, the
+  rest are the provided methods): every history over {next, nth k, size_hint, count, clone} answers
+  like the plain list of the blocks, `C18_blocks_is_seq` (model of the iterator object in
+  Model/Relocs.lean, `runOps` in Spec/Relocs.lean, sequence specification in Lemmas/IterSeq.lean);
+* `strings::Enumerator` (`Iterator + Clone`, only `next` hand-written): `None` is absorbing from every
+  state, `C18_strings_fused_from`; every history answers like the list of the runs, `C18_strings_is_seq`;
 * `PgoIter`: in the debug-directory module (C15).
 The remaining iterators (`imports::Iter`, `debug::Iter`, export / resource entry iterators,
 `Wrap<I32, I64>`) delegate every method to `std::slice::Iter` / `Range` / the wrapped iterator; that
@@ -26,46 +32,47 @@ theorem C18_rich_iter_is_deque (it : Rich.Iter) (h : it.Inv) (ops : List Op) :
 
 namespace Relocs
 
-/-- `IterBlocks::next` on the state "remaining data starts at `off`" -/
-def nextBlock (data : Bytes) (off : Nat) : Option (Block × Nat) :=
-  match peek data off with
-  | none => none
-  | some b => some (b, off + step b.size (data.size - off))
-
 /-- The block iterator is the plain front-to-back sequence `blocksFrom`: `next` pops its head … -/
 theorem C18_blocks_next_some (data : Bytes) (off : Nat) (b : Block) (off' : Nat)
     (h : nextBlock data off = some (b, off')) :
-    blocksFrom data off = b :: blocksFrom data off' := by
-  unfold nextBlock at h
-  cases hp : peek data off with
-  | none => rw [hp] at h; cases h
-  | some b0 =>
-    rw [hp] at h
-    simp only [Option.some.injEq, Prod.mk.injEq] at h
-    obtain ⟨rfl, rfl⟩ := h
-    rw [blocksFrom]
-    split
-    · rename_i h2; rw [hp] at h2; cases h2
-    · rename_i b1 h2; rw [hp] at h2; cases h2; rfl
+    blocksFrom data off = b :: blocksFrom data off' :=
+  blocksFrom_of_next_some h
 
 /-- … and it is fused: `None` exactly when the sequence is empty, and then the state is unchanged,
 so every later call answers `None` again. -/
 theorem C18_blocks_next_none (data : Bytes) (off : Nat) :
-    nextBlock data off = none ↔ blocksFrom data off = [] := by
-  unfold nextBlock
-  cases hp : peek data off with
-  | none =>
-    simp only [true_iff]
-    rw [blocksFrom]
-    split
-    · rfl
-    · rename_i b1 h2; rw [hp] at h2; cases h2
-  | some b0 =>
-    simp only [reduceCtorEq, false_iff]
-    rw [blocksFrom]
-    split
-    · rename_i h2; rw [hp] at h2; cases h2
-    · simp
+    nextBlock data off = none ↔ blocksFrom data off = [] :=
+  ⟨blocksFrom_of_next_none, next_none_of_blocksFrom_nil⟩
+
+open Pelite.Seq in
+/-- **`IterBlocks` is a faithful sequence.**  For every directory, every iterator state `off` and
+every finite history over {next, nth k, size_hint, count, clone} — all the calls `IterBlocks`
+offers — the model of the iterator object answers exactly like the same calls on the plain list of
+the remaining blocks. -/
+theorem C18_blocks_is_seq (data : Bytes) (off : Nat) (ops : List Op) :
+    runOps data off ops = runSeq Hint.unknown (blocksFrom data off) ops :=
+  runOps_eq_runSeq data ops off
+
+/-- The size hint `IterBlocks` gives (the provided `(0, None)`) is sound; it is not an exact-size
+iterator, so nothing more is asked of it. -/
+theorem C18_blocks_hint_sound : Seq.Hint.Sound Seq.Hint.unknown ∧
+    ∀ data off, sizeHintBlocks data off = Seq.Hint.unknown (blocksFrom data off).length :=
+  ⟨Seq.Hint.unknown_sound, fun _ _ => rfl⟩
+
+open Pelite.Seq in
+/-- Fused, for histories: once `next` has answered `None`, every later call of every kind sees the
+empty sequence — items `None`, count 0, clone empty. -/
+theorem C18_blocks_fused (data : Bytes) (off : Nat) (h : nextBlock data off = none) (ops : List Op) :
+    ∀ r ∈ runOps data off ops, r = .item none ∨ r = .num 0 ∨ r = .hint 0 none ∨ r = .list [] := by
+  rw [C18_blocks_is_seq, blocksFrom_of_next_none h]
+  exact (runSeq_nil_fused Hint.unknown ops).2
+
+/-- A concrete history on a two-block directory (the first block has a padding entry). -/
+example :
+    runOps (build [(0x1010, 3), (0x1020, 3), (0x1030, 10), (0x2001, 3)]) 0
+        [.sizeHint, .count, .nth 1, .count, .next, .clone, .nth 0] =
+      [.hint 0 none, .num 2, .item (some ⟨16, 0x2000, 12, 2⟩), .num 0, .item none, .list [], .item none] := by
+  decide +kernel
 
 /-- `count`, `size_hint` (default implementations over `next`) and `clone` (the state is the slice)
 therefore see exactly `blocksFrom`; its length is bounded by the input (C14 / C03). -/
@@ -82,6 +89,61 @@ the offset reached the end of the buffer it keeps returning `None` (idempotent a
 theorem C18_strings_fused (bytes : Bytes) (cfg : Config) : next bytes cfg bytes.size = none :=
   C20_next_at_end bytes cfg
 
+/-- **Real fusedness**: from *any* state (offset), once `next` has answered `None` it answers `None`
+to every further call — `None` does not move `self.offset`.  (AUDIT.md calls this statement
+`C18_strings_fused'`; the audit tool's `#print axioms` parser cannot read a primed name.) -/
+theorem C18_strings_fused_from (bytes : Bytes) (cfg : Config) (off : Nat)
+    (h : next bytes cfg off = none) : ∀ n, nexts bytes cfg off n = List.replicate n none :=
+  nexts_of_none h
+
+/-- and the state a `for` loop (or `collect`) leaves behind is such a state: after at most
+`len + 1` calls from offset 0 `next` has answered `None` -/
+theorem C18_strings_drained (bytes : Bytes) (cfg : Config) :
+    next bytes cfg (finalOff bytes cfg (bytes.size + 1) 0) = none :=
+  next_finalOff bytes cfg (bytes.size + 1) 0 (Nat.zero_le _) (by omega)
+
+/-- every `Some` makes progress, so the enumeration is finite -/
+theorem C18_strings_progress (bytes : Bytes) (cfg : Config) (off : Nat) (hoff : off ≤ bytes.size)
+    (f : Found) (off' : Nat) (h : next bytes cfg off = some (f, off')) :
+    off < off' ∧ off' ≤ bytes.size :=
+  next_progress hoff h
+
+/-- a run followed by two unprintable bytes: one run, then `None` for good — and the state the
+exhausted enumerator is left in is offset 4 (behind the terminator of the last run), not the end
+of the buffer (6), which is the only state `C18_strings_fused` speaks about -/
+example : nexts #[0x41, 0x42, 0x43, 0x00, 0x80, 0x81] ⟨3, 3, false⟩ 0 4 = [some ⟨0, 3, true⟩, none, none, none] ∧
+    finalOff #[0x41, 0x42, 0x43, 0x00, 0x80, 0x81] ⟨3, 3, false⟩ 7 0 = 4 := by
+  decide +kernel
+
+open Pelite.Seq in
+/-- **`strings::Enumerator` is a faithful sequence.**  For every buffer, configuration (thresholds of
+zero included), iterator state and finite history over {next, nth k, size_hint, count, clone} the
+model of the enumerator object answers like the same calls on the plain list of the runs it still
+yields (`itemsFrom`, i.e. `it.clone().collect()`) … -/
+theorem C18_strings_is_seq (bytes : Bytes) (cfg : Config) (off : Nat) (ops : List Op) :
+    runOps bytes cfg off ops = runSeq Hint.unknown (itemsFrom bytes cfg off) ops :=
+  runOps_eq_runSeq bytes cfg ops off
+
+/-- … and from offset 0 that list is the one C20 is about: `collect` terminates within the fuel
+`len + 2` and, for thresholds ≥ 1, consists of exactly the qualifying maximal runs in ascending order. -/
+theorem C18_strings_items (bytes : Bytes) (cfg : Config) :
+    enumAll bytes cfg (bytes.size + 2) 0 = .ok (itemsFrom bytes cfg 0) ∧
+    (1 ≤ cfg.minLen → 1 ≤ cfg.minLenNul →
+      (∀ g, g ∈ itemsFrom bytes cfg 0 ↔ Qualifies bytes cfg g) ∧
+      (itemsFrom bytes cfg 0).Pairwise (fun a b => a.start + a.len < b.start)) := by
+  have h := enumAll_eq_itemsFrom bytes cfg (bytes.size + 2) 0 (Nat.zero_le _) (by omega)
+  refine ⟨h, fun hm hn => ?_⟩
+  obtain ⟨fs, h1, h2, h3⟩ := C20_enumerate_exact bytes cfg hm hn
+  rw [h] at h1
+  cases h1
+  exact ⟨h2, h3⟩
+
+/-- a concrete history on the repository's test vector -/
+example : runOps #[0x1f, 0x43, 0x2d, 0x53, 0x54, 0x00, 0x80, 0x41, 0x41, 0x41, 0xff] ⟨3, 3, false⟩ 0
+      [.count, .sizeHint, .nth 1, .clone, .next] =
+    [.num 2, .hint 0 none, .item (some ⟨7, 3, false⟩), .list [], .item none] := by
+  decide +kernel
+
 theorem C18_strings_sequence (bytes : Bytes) (cfg : Config) (hm : 1 ≤ cfg.minLen) (hn : 1 ≤ cfg.minLenNul) :
     ∃ fs, enumAll bytes cfg (bytes.size + 2) 0 = .ok fs ∧ (∀ g, g ∈ fs ↔ Qualifies bytes cfg g) ∧
       fs.Pairwise (fun a b => a.start + a.len < b.start) :=
@@ -94,9 +156,7 @@ end Strings
 what can be proved is that the specification is self-consistent: exact size hints and fusedness. -/
 namespace DequeSpec
 
-def next {α} (q : List α) : Option α × List α := (q.head?, q.tail)
-def nextBack {α} (q : List α) : Option α × List α := (q.getLast?, q.dropLast)
-def nth {α} (q : List α) (n : Nat) : Option α × List α := (q[n]?, q.drop (n + 1))
+-- `next`, `nextBack`, `nth` are defined in Lemmas/IterSeq.lean (the driver links them)
 
 /-- after any call the remaining length is what an exact size hint must report -/
 theorem C18_len_after {α} (q : List α) (n : Nat) :
@@ -116,7 +176,36 @@ theorem C18_nth_is_iterated_next {α} (q : List α) (k : Nat) :
 
 end DequeSpec
 
-/-- Non-vacuity: a concrete Rich iterator state and history. -/
-example : (Rich.Iter.mk [1, 2, 3, 4] 0).iter.length = 4 := rfl
+/-! The forward sequence specification `Seq.runSeq` is the forward fragment of the double-ended
+deque specification `Rich.Spec.runDeque` that C16 is stated against: with the exact hint policy the
+two give the same answers to every forward history. -/
+namespace Seq
+open Rich Rich.Spec
+
+def toDequeOp : Seq.Op → Rich.Spec.Op
+  | .next => .next | .nth n => .nth n | .sizeHint => .sizeHint | .count => .count | .clone => .clone
+
+def toDequeRes : Seq.Res Record → Rich.Spec.Res
+  | .item r => .item r | .num n => .num n | .hint lo hi => .hint lo (hi.getD 0) | .list l => .list l
+
+theorem C18_seq_is_deque_fragment (q : List Record) (ops : List Seq.Op) :
+    runDeque q (ops.map toDequeOp) = (runSeq Hint.exact q ops).map toDequeRes := by
+  induction ops generalizing q with
+  | nil => rfl
+  | cons o os ih =>
+    cases o <;>
+      simp [runDeque, runSeq, stepDeque, stepSeq, toDequeOp, toDequeRes, DequeSpec.next, DequeSpec.nth,
+        Hint.exact, ih]
+
+end Seq
+
+/-- Non-vacuity: a concrete Rich iterator state (key 0x55, three records) satisfies the invariant and
+a history mixing both ends, `nth`, `len` and `clone` answers like the deque of its records. -/
+example :
+    (Rich.Iter.mk [0x55 ^^^ 0x00010002, 0x55 ^^^ 7, 0x55 ^^^ 0x00030004, 0x55 ^^^ 8, 0x55 ^^^ 0x00050006, 0x55 ^^^ 9] 0x55).Inv ∧
+    (Rich.Iter.mk [0x55 ^^^ 0x00010002, 0x55 ^^^ 7, 0x55 ^^^ 0x00030004, 0x55 ^^^ 8, 0x55 ^^^ 0x00050006, 0x55 ^^^ 9] 0x55).run
+        [.len, .nextBack, .nth 1, .next, .clone] =
+      .ok [.num 3, .item (some ⟨6, 5, 9⟩), .item (some ⟨4, 3, 8⟩), .item none, .list []] := by
+  refine ⟨by unfold Rich.Iter.Inv; decide +kernel, by decide +kernel⟩
 
 end Pelite
